@@ -97,7 +97,9 @@ func derives(fn *Func, e ast.Expr, pred func(ast.Expr) bool, seen map[types.Obje
 	return found
 }
 
-func isCompletionData(t types.Type) bool { return t != nil && typeIs(t, "hcl-lang/schema", "CompletionData") }
+func isCompletionData(t types.Type) bool {
+	return t != nil && typeIs(t, "hcl-lang/schema", "CompletionData")
+}
 
 // litField returns the value of a keyed field of a composite literal.
 func litField(cl *ast.CompositeLit, name string) ast.Expr {
